@@ -148,6 +148,9 @@ type vsConn struct {
 	failAfter int32
 	failTimeout int32 // 1: the injected failure is a timeout-class net.Error and the connection stays usable
 	failInPay   int32 // 1: the failure waits for a Write that starts inside a payload
+	holdMu      sync.Mutex
+	failHold    chan struct{} // non-nil: the Write the armed failure hits parks here first (write_fail hold) until release_write
+	held        int32         // 1 while that Write is parked
 
 	// outbound frame tracker: where in the frame stream the next Write call starts
 	tmu      sync.Mutex
@@ -226,6 +229,17 @@ func (c *vsConn) Write(p []byte) (int, error) {
 		k := int(atomic.LoadInt32(&c.failAfter))
 		if k > len(p) {
 			k = len(p)
+		}
+		c.holdMu.Lock()
+		hold := c.failHold
+		c.failHold = nil
+		c.holdMu.Unlock()
+		if hold != nil {
+			// the Write blocks (a peer whose receive side is stalled) and only then fails: whoever waits for
+			// this frame's consequences is parked by the time the failure happens
+			atomic.StoreInt32(&c.held, 1)
+			<-hold
+			atomic.StoreInt32(&c.held, 0)
 		}
 		n := 0
 		if k > 0 {
@@ -415,6 +429,9 @@ type vsStep struct {
 	LenField *int64 `json:"lenfield"`
 	Cut      *int   `json:"cut"`  // peer_send: write only the first cut bytes of the frame
 	Skip     *int   `json:"skip"` // peer_send: write the frame from byte skip on (the rest of a frame sent with cut=skip before)
+	Hold     bool     `json:"hold"`   // write_fail: the Write that fails parks first, until release_write
+	Frames   []vsStep `json:"frames"` // peer_batch: the frames (each written like a peer_send / keepalive / reply step, field "op")
+	Segs     []int    `json:"segs"`   // peer_batch: byte offsets at which the concatenated frames are split into separate Writes
 }
 
 type vsScript struct {
@@ -484,6 +501,7 @@ type vsSess struct {
 	raw     []byte // bytes taken by peer_read / drain_raw, in order
 	pending *vsHdr // expect_header read a header whose payload expect_rest has still to read
 	gateCh  chan struct{}
+	holdCh  chan struct{} // write_fail hold: closed by release_write
 }
 
 func vsClassify(err error) string {
@@ -864,6 +882,7 @@ func (s *vsSess) state() vsObs {
 		o["nwritten"] = atomic.LoadInt64(&s.cc.nWritten)
 		o["overlapping_writes"] = atomic.LoadInt64(&s.cc.overlaps)
 		o["gated"] = atomic.LoadInt32(&s.cc.gated) == 1
+		o["held"] = atomic.LoadInt32(&s.cc.held) == 1
 	}
 	o["closed"] = atomic.LoadUint32(&s.c.isClosed) == 1
 	select {
@@ -891,6 +910,36 @@ func (s *vsSess) connectState() vsObs {
 	}
 }
 
+// peerFrame builds the bytes of one frame the peer sends (peer_send / keepalive / reply step, or an element of peer_batch)
+func (s *vsSess) peerFrame(st vsStep) ([]byte, uint32, vsObs) {
+	typ, id, ver := st.Typ, st.ID, st.Ver
+	if st.Op == "keepalive" {
+		typ = int(MsgKeepAlive)
+	}
+	if st.Op == "reply" {
+		if st.To < 0 || st.To >= len(s.seen) {
+			return nil, 0, vsObs{"st": "bad-reply-index"}
+		}
+		id = s.seen[st.To]["id"].(uint32)
+	}
+	if ver == 0 {
+		ver = 1
+	}
+	b := st.Pl.bytes()
+	lf := uint32(10 + len(b))
+	if st.LenField != nil {
+		lf = uint32(*st.LenField)
+	}
+	fr := vsBuildFrame(ver, typ, id, lf, b)
+	if st.Cut != nil && *st.Cut < len(fr) {
+		fr = fr[:*st.Cut]
+	}
+	if st.Skip != nil && *st.Skip <= len(fr) {
+		fr = fr[*st.Skip:]
+	}
+	return fr, id, nil
+}
+
 func (s *vsSess) step(st vsStep) vsObs {
 	if s.broken != "" {
 		return vsObs{"st": "broken", "res": "broken", "why": s.broken}
@@ -899,33 +948,57 @@ func (s *vsSess) step(st vsStep) vsObs {
 	case "connect":
 		return s.connect(st)
 	case "peer_send", "keepalive", "reply":
-		typ, id, ver := st.Typ, st.ID, st.Ver
-		if st.Op == "keepalive" {
-			typ = int(MsgKeepAlive)
-		}
-		if st.Op == "reply" {
-			if st.To < 0 || st.To >= len(s.seen) {
-				return vsObs{"st": "bad-reply-index"}
-			}
-			id = s.seen[st.To]["id"].(uint32)
-		}
-		if ver == 0 {
-			ver = 1
-		}
-		b := st.Pl.bytes()
-		lf := uint32(10 + len(b))
-		if st.LenField != nil {
-			lf = uint32(*st.LenField)
-		}
-		fr := vsBuildFrame(ver, typ, id, lf, b)
-		if st.Cut != nil && *st.Cut < len(fr) {
-			fr = fr[:*st.Cut]
-		}
-		if st.Skip != nil && *st.Skip <= len(fr) {
-			fr = fr[*st.Skip:]
+		fr, id, bad := s.peerFrame(st)
+		if bad != nil {
+			return bad
 		}
 		o := s.peerSend(fr)
 		o["id"] = id
+		return o
+	case "peer_batch":
+		// several frames concatenated and handed to the connection in as few Writes as the script says: one Write
+		// for all of them (what a TCP segment carrying several small messages looks like to the client), or split
+		// at arbitrary byte offsets (segs) — frame boundaries and Write boundaries are unrelated
+		if s.peer == nil {
+			return vsObs{"st": "noconn"}
+		}
+		var all []byte
+		ids := []uint32{}
+		for _, f := range st.Frames {
+			fr, id, bad := s.peerFrame(f)
+			if bad != nil {
+				return bad
+			}
+			all = append(all, fr...)
+			ids = append(ids, id)
+		}
+		var parts [][]byte
+		prev := 0
+		for _, k := range st.Segs {
+			if k > prev && k < len(all) {
+				parts = append(parts, all[prev:k])
+				prev = k
+			}
+		}
+		parts = append(parts, all[prev:])
+		n := atomic.AddInt64(&s.peerN, int64(len(parts)))
+		for _, p := range parts {
+			select {
+			case s.peerQ <- p:
+			default:
+				return vsObs{"st": "peer-queue-full"}
+			}
+		}
+		o := vsObs{"ids": ids, "writes": len(parts)}
+		switch {
+		case !s.settle():
+			o["st"] = "timeout"
+		case atomic.LoadInt64(&s.peerW) >= n:
+			o["st"] = "ok"
+		default:
+			o["st"] = "blocked"
+			o["written"] = int64(len(parts)) - (n - atomic.LoadInt64(&s.peerW))
+		}
 		return o
 	case "send":
 		return s.startCaller(st, false)
@@ -1030,8 +1103,26 @@ func (s *vsSess) step(st vsStep) vsObs {
 		}
 		atomic.StoreInt32(&s.cc.failTimeout, tk)
 		atomic.StoreInt32(&s.cc.failInPay, ip)
+		if st.Hold {
+			s.holdCh = make(chan struct{})
+			s.cc.holdMu.Lock()
+			s.cc.failHold = s.holdCh
+			s.cc.holdMu.Unlock()
+		}
 		atomic.StoreInt32(&s.cc.failArmed, 1)
 		return vsObs{"st": "ok"}
+	case "release_write":
+		// the Write parked by write_fail hold now fails
+		if s.holdCh == nil {
+			return vsObs{"st": "no-hold"}
+		}
+		was := atomic.LoadInt32(&s.cc.held) == 1
+		close(s.holdCh)
+		s.holdCh = nil
+		if !s.settle() {
+			return vsObs{"st": "timeout"}
+		}
+		return vsObs{"st": "ok", "was_parked": was}
 	case "peer_read":
 		// the peer takes exactly n raw bytes off the wire (recorded in final.raw_hex)
 		if s.peer == nil {
@@ -1108,6 +1199,10 @@ func (s *vsSess) finish() vsObs {
 	if s.gateCh != nil { // a gate left closed would keep the write loop parked during the cleanup
 		close(s.gateCh)
 		s.gateCh = nil
+	}
+	if s.holdCh != nil {
+		close(s.holdCh)
+		s.holdCh = nil
 	}
 	for _, cr := range s.callers {
 		cr.cancel()
